@@ -55,7 +55,7 @@ type Analyzer struct {
 	indexed    bool
 	// MaxDepth bounds summary recursion.
 	MaxDepth int
-	relInts map[*ssa.Function][]bool
+	relInts  map[*ssa.Function][]bool
 	// cut is set whenever a summary request was answered with "unknown" because of the bound or a cycle
 	cut bool
 	// Stats
@@ -302,12 +302,12 @@ type fctx struct {
 	fn    *ssa.Function
 	binds map[*ssa.Parameter]Bind // int bindings of parameters in this context
 	// closure support: the MakeClosure that created fn (nil for declared functions)
-	mk     *ssa.MakeClosure
-	parent *fctx
-	lbMemo map[ssa.Value][2]int
+	mk          *ssa.MakeClosure
+	parent      *fctx
+	lbMemo      map[ssa.Value][2]int
 	fieldCanon  map[string]ssa.Value
 	fieldStored map[string]bool
-	budget int
+	budget      int
 }
 
 func isSliceT(t types.Type) bool {
@@ -1730,8 +1730,8 @@ func negate(op token.Token) token.Token {
 }
 
 // Ctx exposes the resolution helpers of a result.
-func (r *Result) ResolveSlice(v ssa.Value) Ref                { return r.fc.ResolveSlice(v) }
-func (r *Result) ResolveInt(v ssa.Value) (Ref, bool, bool)    { return r.fc.ResolveInt(v) }
-func (r *Result) IntConst(v ssa.Value) (int, bool)            { return r.fc.IntConst(v) }
-func (r *Result) LBRoot(st State, root ssa.Value) int         { return r.lb(st, root) }
-func (r *Result) Func() *ssa.Function                         { return r.fc.fn }
+func (r *Result) ResolveSlice(v ssa.Value) Ref             { return r.fc.ResolveSlice(v) }
+func (r *Result) ResolveInt(v ssa.Value) (Ref, bool, bool) { return r.fc.ResolveInt(v) }
+func (r *Result) IntConst(v ssa.Value) (int, bool)         { return r.fc.IntConst(v) }
+func (r *Result) LBRoot(st State, root ssa.Value) int      { return r.lb(st, root) }
+func (r *Result) Func() *ssa.Function                      { return r.fc.fn }
